@@ -12,6 +12,7 @@ import (
 	"crypto/ed25519"
 	"crypto/elliptic"
 	"crypto/sha256"
+	"crypto/sha512"
 	"encoding/base64"
 	"encoding/binary"
 	"encoding/hex"
@@ -36,6 +37,7 @@ import (
 	tinkpb "github.com/google/tink/go/proto/tink_go_proto"
 	"github.com/google/tink/go/tink"
 	"golang.org/x/crypto/hkdf"
+	"golang.org/x/crypto/nacl/box"
 	"golang.org/x/crypto/pbkdf2"
 	"google.golang.org/protobuf/encoding/protowire"
 
@@ -43,6 +45,9 @@ import (
 	compkms "github.com/hyperledger/aries-framework-go/component/kmscrypto/kms"
 	"github.com/hyperledger/aries-framework-go/component/kmscrypto/kms/localkms"
 	"github.com/hyperledger/aries-framework-go/component/kmscrypto/secretlock/local"
+	"github.com/hyperledger/aries-framework-go/component/kmscrypto/util/cryptoutil"
+	arieslog "github.com/hyperledger/aries-framework-go/component/log"
+	spilog "github.com/hyperledger/aries-framework-go/spi/log"
 	lockhkdf "github.com/hyperledger/aries-framework-go/component/kmscrypto/secretlock/local/masterlock/hkdf"
 	lockpbkdf2 "github.com/hyperledger/aries-framework-go/component/kmscrypto/secretlock/local/masterlock/pbkdf2"
 	"github.com/hyperledger/aries-framework-go/component/storageutil/mem"
@@ -136,6 +141,7 @@ type world struct {
 	protected  string // what is kept at rest instead of the master key (hkdf/pbkdf2)
 	lock       *recLock
 	kms        *localkms.LocalKMS
+	store      kmsapi.Store // THE store object of the rightful key manager
 	crypto     *tinkcrypto.Crypto
 
 	matAtom map[string]int
@@ -143,6 +149,7 @@ type world struct {
 	secrets []secret // tracked secret byte strings
 	hay     []hay    // everything the adversary sees
 	issued  []issuedID
+	odd     []issuedID // ids of accepted malformed imports
 
 	unparsed []string // private key protos in which no key_value field was found
 
@@ -312,7 +319,11 @@ func (w *world) open(lock secretlock.Service, recorded bool) *localkms.LocalKMS 
 	)
 
 	if recorded {
-		st, err = compkms.NewAriesProviderWrapper(w.rec)
+		if w.store == nil {
+			w.store, err = compkms.NewAriesProviderWrapper(w.rec)
+		}
+
+		st = w.store
 	} else {
 		st, err = compkms.NewAriesProviderWrapper(w.raw)
 	}
@@ -321,6 +332,15 @@ func (w *world) open(lock secretlock.Service, recorded bool) *localkms.LocalKMS 
 		panic(err)
 	}
 
+	k, err := localkms.New(keyURI, &provider{store: st, lock: lock})
+	if err != nil {
+		panic(err)
+	}
+
+	return k
+}
+
+func (w *world) openOn(lock secretlock.Service, st kmsapi.Store) *localkms.LocalKMS {
 	k, err := localkms.New(keyURI, &provider{store: st, lock: lock})
 	if err != nil {
 		panic(err)
@@ -566,7 +586,7 @@ func (w *world) rebuild(pos int, op Op, value []byte) (term string, bad string) 
 		a, ok := w.matAtom[m]
 		if !ok {
 			a = 4*pos + 5
-			if op.Kind == "import" {
+			if op.Kind == "import" || op.Kind == "importbad" {
 				a = importAtom(pos)
 			}
 
@@ -623,6 +643,14 @@ func (w *world) trackMaterial(typeURL string, v []byte) {
 			if num == field {
 				w.addSecret("key material (key_value)", val)
 
+				if strings.HasSuffix(typeURL, ".Ed25519PrivateKey") && len(val) == ed25519.SeedSize {
+					h := sha512.Sum512(val)
+					h[0] &= 248
+					h[31] &= 127
+					h[31] |= 64
+					w.addSecret("key material (curve25519 form of the Ed25519 key)", h[:32])
+				}
+
 				found = true
 			}
 
@@ -650,6 +678,9 @@ type Op struct {
 	KT   string `json:"kt,omitempty"`
 	UID  bool   `json:"uid,omitempty"` // import with a caller-chosen id
 	Ref  int    `json:"ref"`
+	// importbad: which defect the key handed to ImportPrivateKey has: curve (a valid key of another curve than the key
+	// type's), offcurve, nild, nilx, kind (Ed25519 key for an EC type and vice versa), nil
+	Bad string `json:"bad,omitempty"`
 }
 
 // Obs is what happened.
@@ -657,6 +688,7 @@ type Obs struct {
 	OK     bool     `json:"ok"`
 	Writes []string `json:"writes"` // rebuilt terms
 	Bad    string   `json:"bad,omitempty"`
+	Worked bool     `json:"worked,omitempty"` // importbad: accepted; box: the CryptoBox call succeeded
 }
 
 func genImportKey(kt *ktInfo, r *hx.Rng) (interface{}, [][]byte) {
@@ -691,6 +723,145 @@ func genImportKey(kt *ktInfo, r *hx.Rng) (interface{}, [][]byte) {
 	return nil, nil
 }
 
+// genBadKey builds a key ImportPrivateKey should have trouble with; the secret parts are returned for the scan.
+func genBadKey(kt *ktInfo, bad string, r *hx.Rng) (interface{}, [][]byte) {
+	good, sec := genImportKey(kt, r)
+
+	switch bad {
+	case "nil":
+		if kt.imp == "ed" {
+			return ed25519.PrivateKey(nil), nil
+		}
+
+		return (*ecdsa.PrivateKey)(nil), nil
+	case "kind":
+		// an Ed25519 key for an EC key type, an EC key for Ed25519
+		if kt.imp == "ed" {
+			return genImportKey(&ktInfo{imp: "ec", crv: "P-256"}, r)
+		}
+
+		return genImportKey(&ktInfo{imp: "ed"}, r)
+	}
+
+	ec, isEC := good.(*ecdsa.PrivateKey)
+	if !isEC {
+		return good, sec // Ed25519 keys have no curve/coordinate defects: imported as they are
+	}
+
+	switch bad {
+	case "curve":
+		other := "P-384"
+		if kt.crv == "P-384" {
+			other = "P-521"
+		}
+
+		return genImportKey(&ktInfo{imp: "ec", crv: other}, r)
+	case "offcurve":
+		ec.Y = new(big.Int).Add(ec.Y, big.NewInt(1))
+	case "nild":
+		ec.D = nil
+		sec = nil
+	case "nilx":
+		ec.X = nil
+	}
+
+	return ec, sec
+}
+
+// safeEasy: CryptoBox.Easy panics (nil dereference in extractPrivKey) when the key under id is not an Ed25519 key — a
+// robustness matter outside C05; the harness reports it as a failed call.
+func safeEasy(cb *localkms.CryptoBox, payload, nonce, theirPub []byte, id string) (ct []byte, err error) {
+	defer func() {
+		if p := recover(); p != nil {
+			err = fmt.Errorf("panic: %v", p)
+		}
+	}()
+
+	return cb.Easy(payload, nonce, theirPub, id)
+}
+
+type rngReader struct{ r *hx.Rng }
+
+func (rr rngReader) Read(p []byte) (int, error) { copy(p, rr.r.Bytes(len(p))); return len(p), nil }
+
+// box runs the CryptoBox calls of the key manager with the key under id (legacy packer's entry points): they read the
+// key, must write nothing and must not change how later keysets are wrapped.
+func (w *world) box(id string, r *hx.Rng) error {
+	cb, err := localkms.NewCryptoBox(w.kms)
+	if err != nil {
+		return err
+	}
+
+	rd := rngReader{r}
+
+	theirPub, theirPriv, err := box.GenerateKey(rd)
+	if err != nil {
+		return err
+	}
+
+	payload := []byte("verif c05 box payload")
+	nonce := r.Bytes(cryptoutil.NonceSize)
+
+	ct, err := safeEasy(cb, payload, nonce, theirPub[:], id)
+	if err != nil {
+		return err
+	}
+
+	w.see("CryptoBox.Easy result", ct)
+
+	myPub, _, err := w.kms.ExportPubKeyBytes(id)
+	if err != nil || len(myPub) != ed25519.PublicKeySize {
+		return nil
+	}
+
+	myCurve, err := cryptoutil.PublicEd25519toCurve25519(myPub)
+	if err != nil {
+		return nil
+	}
+
+	var (
+		nb [cryptoutil.NonceSize]byte
+		mc [cryptoutil.Curve25519KeySize]byte
+	)
+
+	copy(nb[:], nonce)
+	copy(mc[:], myCurve)
+
+	if pt, e := cb.EasyOpen(box.Seal(nil, payload, &nb, &mc, theirPriv), nonce, theirPub[:], myPub); e == nil {
+		w.see("CryptoBox.EasyOpen result", pt)
+	}
+
+	if sealed, e := cb.Seal(payload, myCurve, rd); e == nil {
+		w.see("CryptoBox.Seal result", sealed)
+
+		if pt, e2 := cb.SealOpen(sealed, myPub); e2 == nil {
+			w.see("CryptoBox.SealOpen result", pt)
+		}
+	}
+
+	return nil
+}
+
+// everything the framework logs is visible to whoever reads the logs
+type capLogger struct{ module string }
+
+var logLines []string
+
+func (l capLogger) put(level, msg string, args []interface{}) {
+	logLines = append(logLines, level+" "+l.module+" "+fmt.Sprintf(msg, args...))
+}
+
+func (l capLogger) Panicf(msg string, args ...interface{}) { l.put("PANIC", msg, args) }
+func (l capLogger) Fatalf(msg string, args ...interface{}) { l.put("FATAL", msg, args) }
+func (l capLogger) Errorf(msg string, args ...interface{}) { l.put("ERROR", msg, args) }
+func (l capLogger) Warnf(msg string, args ...interface{})  { l.put("WARN", msg, args) }
+func (l capLogger) Infof(msg string, args ...interface{})  { l.put("INFO", msg, args) }
+func (l capLogger) Debugf(msg string, args ...interface{}) { l.put("DEBUG", msg, args) }
+
+type capProvider struct{}
+
+func (capProvider) GetLogger(module string) spilog.Logger { return capLogger{module} }
+
 func (w *world) see(what string, b []byte) { w.hay = append(w.hay, hay{what, append([]byte(nil), b...)}) }
 
 func (w *world) apply(pos int, op Op, r *hx.Rng) Obs {
@@ -723,6 +894,31 @@ func (w *world) apply(pos int, op Op, r *hx.Rng) Obs {
 		}
 
 		id, kh, err = w.kms.ImportPrivateKey(priv, kmsapi.KeyType(kt), opts...)
+	case "importbad":
+		priv, sec := genBadKey(ktByName(kt), op.Bad, r)
+		for _, s := range sec {
+			w.addSecret("imported private key", s)
+		}
+
+		func() {
+			defer func() {
+				if p := recover(); p != nil {
+					err = fmt.Errorf("panic: %v", p) // a panic on a malformed key is C03's subject; what it says is a result all the same
+				}
+			}()
+
+			id, kh, err = w.kms.ImportPrivateKey(priv, kmsapi.KeyType(kt))
+		}()
+
+		obs.Worked = err == nil
+	case "box":
+		if op.Ref < len(w.issued) {
+			err = w.box(w.issued[op.Ref].id, r)
+		} else {
+			err = fmt.Errorf("no such ref")
+		}
+
+		obs.Worked = err == nil
 	case "rotate":
 		if op.Ref < len(w.issued) {
 			kt = w.issued[op.Ref].kt
@@ -750,7 +946,12 @@ func (w *world) apply(pos int, op Op, r *hx.Rng) Obs {
 	if err == nil {
 		if id != "" {
 			w.see("returned id", []byte(id))
-			w.issued = append(w.issued, issuedID{id, kt})
+			if op.Kind == "importbad" {
+				// stored, returned, probed with wrong locks — but later operations of the history do not refer to it
+				w.odd = append(w.odd, issuedID{id, kt})
+			} else {
+				w.issued = append(w.issued, issuedID{id, kt})
+			}
 		}
 
 		if pub != nil {
@@ -831,6 +1032,9 @@ func encodings(b []byte) map[string][]byte {
 		"hex":          []byte(hex.EncodeToString(b)),
 		"HEX":          []byte(strings.ToUpper(hex.EncodeToString(b))),
 		"base58":       []byte(base58.Encode(b)),
+		"decimal":      []byte(new(big.Int).SetBytes(b).String()),                       // %v / %d / String() of a big.Int
+		"gobytes":      []byte(strings.Trim(fmt.Sprint(b), "[]")),                       // %v of a []byte
+		"gosyntax":     []byte(strings.TrimSuffix(strings.TrimPrefix(fmt.Sprintf("%#v", b), "[]byte{"), "}")), // %#v
 	}
 }
 
@@ -889,7 +1093,7 @@ func (w *world) scan() (sig, detail string) {
 
 // ---------- one history ----------
 
-func coqOp(op Op, pos int) string {
+func coqOp(op Op, pos int, o Obs) string {
 	asym := "false"
 	if kt := ktByName(op.KT); kt != nil && kt.asym {
 		asym = "true"
@@ -902,6 +1106,10 @@ func coqOp(op Op, pos int) string {
 		return "CreateExport " + asym
 	case "import":
 		return fmt.Sprintf("Import %d", importAtom(pos))
+	case "importbad":
+		return fmt.Sprintf("ImportTry %d %s", importAtom(pos), hx.CoqBool(o.Worked))
+	case "box":
+		return fmt.Sprintf("Box %d%%nat %s", op.Ref, hx.CoqBool(o.Worked))
 	case "rotate":
 		return fmt.Sprintf("Rotate %d%%nat", op.Ref)
 	case "get":
@@ -917,6 +1125,7 @@ type histCase struct {
 }
 
 func runHistory(kind, cfg string, ops []Op, r *hx.Rng, tr *hx.Trace) {
+	logLines = nil
 	w := newWorld(cfg, r)
 	rec := &hx.Record{Kind: kind, Case: histCase{cfg, ops}, Oracle: "ok"}
 
@@ -938,7 +1147,7 @@ func runHistory(kind, cfg string, ops []Op, r *hx.Rng, tr *hx.Trace) {
 	for i, op := range ops {
 		o := w.apply(i, op, r.Fork(uint64(1000+i)))
 		obs = append(obs, o)
-		coqOps = append(coqOps, coqOp(op, i))
+		coqOps = append(coqOps, coqOp(op, i, o))
 		coqObs = append(coqObs, "("+hx.CoqList(o.Writes)+", "+hx.CoqBool(o.OK)+")")
 		class = append(class, fmt.Sprintf("%s/%s/%v/%d", op.Kind, op.KT, o.OK, len(o.Writes)))
 		nWrites += len(o.Writes)
@@ -947,13 +1156,17 @@ func runHistory(kind, cfg string, ops []Op, r *hx.Rng, tr *hx.Trace) {
 			fail("stored-form:"+strings.Fields(o.Bad)[0]+"-"+strings.Fields(o.Bad)[1], fmt.Sprintf("op %d (%+v): %s", i, op, o.Bad))
 		}
 
-		if op.Kind == "rotate" || op.Kind == "import" {
+		if op.Kind == "rotate" || op.Kind == "import" || op.Kind == "importbad" || op.Kind == "box" {
 			nontrivl = true
 		}
 	}
 
 	if len(w.unparsed) > 0 {
 		fail("harness:key-proto-unparsed", "no key_value field found in "+strings.Join(w.unparsed, ","))
+	}
+
+	for _, l := range logLines {
+		w.see("log line", []byte(l))
 	}
 
 	// (iii) nothing the adversary sees contains secret bytes in any of the encodings
@@ -994,6 +1207,10 @@ func runHistory(kind, cfg string, ops []Op, r *hx.Rng, tr *hx.Trace) {
 		if h, e := w.kms.Get(is.id); e == nil {
 			_, _, _ = w.kms.ExportPubKeyBytes(is.id)
 			w.use(h)
+
+			if cb, e2 := localkms.NewCryptoBox(w.kms); e2 == nil {
+				_, _ = safeEasy(cb, []byte("x"), make([]byte, cryptoutil.NonceSize), make([]byte, 32), is.id)
+			}
 		}
 	}
 
@@ -1033,25 +1250,37 @@ func runHistory(kind, cfg string, ops []Op, r *hx.Rng, tr *hx.Trace) {
 				continue
 			}
 
-			k2 := w.open(wl, false)
+			// the intruding key manager: over THE store object and URI of the rightful one (same process), and over a
+			// fresh wrapper of the same provider; every entry point that reads a key
+			for mi, k2 := range []*localkms.LocalKMS{w.openOn(wl, w.store), w.open(wl, false)} {
+				how := fmt.Sprintf("%s (%s, %s)", pr.what, dl, []string{"same store object", "fresh store wrapper"}[mi])
 
-			for _, is := range w.issued {
-				if _, e := k2.Get(is.id); e == nil {
-					wrongReads = true
+				for _, is := range append(append([]issuedID{}, w.issued...), w.odd...) {
+					if _, e := k2.Get(is.id); e == nil {
+						wrongReads = true
 
-					fail("wrong-master-key:reads", fmt.Sprintf("Get(%q) succeeded in a key manager opened with %s (%s)", is.id, pr.what, dl))
-				}
+						fail("wrong-master-key:reads", fmt.Sprintf("Get(%q) succeeded in a key manager opened with %s", is.id, how))
+					}
 
-				if _, _, e := k2.ExportPubKeyBytes(is.id); e == nil {
-					wrongReads = true
+					if _, _, e := k2.ExportPubKeyBytes(is.id); e == nil {
+						wrongReads = true
 
-					fail("wrong-master-key:exports", fmt.Sprintf("ExportPubKeyBytes(%q) succeeded with %s (%s)", is.id, pr.what, dl))
-				}
+						fail("wrong-master-key:exports", fmt.Sprintf("ExportPubKeyBytes(%q) succeeded with %s", is.id, how))
+					}
 
-				if _, _, e := k2.Rotate(kmsapi.KeyType(is.kt), is.id); e == nil {
-					wrongReads = true
+					if cb, e := localkms.NewCryptoBox(k2); e == nil {
+						if _, e = safeEasy(cb, []byte("x"), make([]byte, cryptoutil.NonceSize), make([]byte, 32), is.id); e == nil {
+							wrongReads = true
 
-					fail("wrong-master-key:rotates", fmt.Sprintf("Rotate(%q) succeeded with %s (%s)", is.id, pr.what, dl))
+							fail("wrong-master-key:cryptobox", fmt.Sprintf("CryptoBox.Easy with key %q succeeded with %s", is.id, how))
+						}
+					}
+
+					if _, _, e := k2.Rotate(kmsapi.KeyType(is.kt), is.id); e == nil {
+						wrongReads = true
+
+						fail("wrong-master-key:rotates", fmt.Sprintf("Rotate(%q) succeeded with %s", is.id, how))
+					}
 				}
 			}
 		}
@@ -1176,7 +1405,7 @@ func enumerate(alpha []Op, maxLen int, f func([]Op)) {
 		}
 
 		for _, o := range alpha {
-			if (o.Kind == "rotate" || o.Kind == "get" || o.Kind == "export") && o.Ref > issuedBy(prefix) {
+			if (o.Kind == "rotate" || o.Kind == "get" || o.Kind == "export" || o.Kind == "box") && o.Ref > issuedBy(prefix) {
 				continue
 			}
 
@@ -1209,8 +1438,13 @@ func randomHistory(r *hx.Rng, n int) []Op {
 			}
 
 			ops = append(ops, o)
-		case x < 45:
+		case x < 40:
 			ops = append(ops, Op{Kind: "import", KT: imp[r.Intn(len(imp))].name, UID: r.Bool()})
+		case x < 45:
+			ops = append(ops, Op{Kind: "importbad", KT: imp[r.Intn(len(imp))].name,
+				Bad: []string{"curve", "offcurve", "nild", "nilx", "kind", "nil"}[r.Intn(6)]})
+		case x < 52:
+			ops = append(ops, Op{Kind: "box", Ref: r.Intn(is + 1)})
 		case x < 75:
 			ops = append(ops, Op{Kind: "rotate", Ref: r.Intn(is + 1)})
 		case x < 88:
@@ -1224,6 +1458,9 @@ func randomHistory(r *hx.Rng, n int) []Op {
 }
 
 func main() {
+	arieslog.Initialize(capProvider{})
+	arieslog.SetLevel("", spilog.DEBUG)
+
 	args := hx.ParseArgs()
 	tr := hx.NewTrace(args.Out)
 
@@ -1295,11 +1532,38 @@ func main() {
 	}
 
 	// all histories up to length 2 (quick) / 3 (thorough) over a small alphabet, every configuration
-	alpha := []Op{{Kind: "create", KT: "AES256GCM"}, {Kind: "create", KT: "ED25519"}, {Kind: "createx", KT: "HMACSHA256Tag256"},
+	// failing / odd imports: every importable key type x every defect; each followed by ordinary operations
+	for ci, cfg := range cfgs {
+		for _, kt := range ktypes {
+			if kt.imp == "" {
+				continue
+			}
+
+			for bi, bad := range []string{"curve", "offcurve", "nild", "nilx", "kind", "nil"} {
+				if (bi+ci)%2 == 1 && args.Tier != "thorough" {
+					continue // quick: half of the defects per configuration, alternating
+				}
+
+				runHistory("importbad", cfg, []Op{{Kind: "create", KT: kt.name}, {Kind: "importbad", KT: kt.name, Bad: bad},
+					{Kind: "import", KT: kt.name}, {Kind: "rotate", Ref: 1}, {Kind: "get", Ref: 1}}, next(), tr)
+			}
+		}
+	}
+
+	// CryptoBox calls, then keys are created / imported / rotated: what is written afterwards is wrapped as before
+	for _, cfg := range cfgs {
+		for _, kt := range []string{"ED25519", "X25519ECDHKW", "AES256GCM", "ECDSAP256DER"} {
+			runHistory("box", cfg, []Op{{Kind: "create", KT: kt}, {Kind: "box", Ref: 0}, {Kind: "create", KT: "ED25519"},
+				{Kind: "import", KT: "ED25519"}, {Kind: "box", Ref: 1}, {Kind: "rotate", Ref: 0}, {Kind: "createx", KT: "NISTP256ECDHKW"},
+				{Kind: "box", Ref: 2}, {Kind: "import", KT: "ECDSAP384DER", UID: true}, {Kind: "get", Ref: 3}}, next(), tr)
+		}
+	}
+
+	alpha := []Op{{Kind: "box", Ref: 0}, {Kind: "importbad", KT: "ECDSAP256DER", Bad: "curve"}, {Kind: "create", KT: "AES256GCM"}, {Kind: "create", KT: "ED25519"}, {Kind: "createx", KT: "HMACSHA256Tag256"},
 		{Kind: "createx", KT: "NISTP256ECDHKW"}, {Kind: "import", KT: "ED25519"}, {Kind: "import", KT: "ECDSAP256DER", UID: true},
 		{Kind: "rotate", Ref: 0}, {Kind: "rotate", Ref: 1}, {Kind: "get", Ref: 0}, {Kind: "export", Ref: 0}, {Kind: "export", Ref: 1}}
 
-	depth, nRandom := 2, 2500
+	depth, nRandom := 2, 1500
 	if args.Tier == "thorough" {
 		depth, nRandom = 3, 12000
 	}
